@@ -1694,7 +1694,7 @@ func (ctx *RenderContext) contains(container, item interface{}) (bool, error) {
 	case []interface{}:
 		// For small slices, linear search is fine
 		// For larger slices (>50 items), consider a map-based approach
-		if len(c) > 50 {
+		if len(c) > 50 && isHashable(item) && allHashable(c) {
 			// Create a temporary map for O(1) lookups
 			// Only worth doing for sufficiently large slices
 			tempMap := make(map[interface{}]struct{}, len(c))
@@ -1742,7 +1742,7 @@ func (ctx *RenderContext) contains(container, item interface{}) (bool, error) {
 		return strings.Contains(rv.String(), ctx.ToString(item)), nil
 	case reflect.Array, reflect.Slice:
 		// Optimize for large slices/arrays
-		if rv.Len() > 50 {
+		if rv.Len() > 50 && isHashable(item) && elemsHashable(rv) {
 			// Same map-based optimization as above
 			tempMap := make(map[interface{}]struct{}, rv.Len())
 			for i := 0; i < rv.Len(); i++ {
@@ -1784,6 +1784,34 @@ func (ctx *RenderContext) contains(container, item interface{}) (bool, error) {
 	}
 
 	return false, nil
+}
+
+// isHashable reports whether v can be used as the key of a Go map without a runtime panic
+func isHashable(v interface{}) bool {
+	if v == nil {
+		return true
+	}
+	return reflect.ValueOf(v).Comparable()
+}
+
+// allHashable reports whether every element of items can be used as the key of a Go map
+func allHashable(items []interface{}) bool {
+	for _, v := range items {
+		if !isHashable(v) {
+			return false
+		}
+	}
+	return true
+}
+
+// elemsHashable reports whether every element of a slice or array can be used as the key of a Go map
+func elemsHashable(rv reflect.Value) bool {
+	for i := 0; i < rv.Len(); i++ {
+		if !rv.Index(i).Comparable() {
+			return false
+		}
+	}
+	return true
 }
 
 // equals checks if two values are equal
